@@ -258,6 +258,13 @@ def t_fold(sc, loop):
 
 def t_trampoline(sc, loop):
     t = loop.test
+    if isinstance(t, ast.Constant) and t.value is True and loop.body and isinstance(loop.body[0], ast.If):
+        # while True: if not isinstance(v, D): return v   ...   - the same loop with its test moved into the body
+        c0 = loop.body[0]
+        tt = c0.test.operand if isinstance(c0.test, ast.UnaryOp) and isinstance(c0.test.op, ast.Not) else None
+        leaves = c0.body and isinstance(c0.body[-1], (ast.Return, ast.Break)) and not c0.orelse
+        if isinstance(tt, ast.Call) and flow.call_name(tt) == "isinstance" and isinstance(tt.args[0], ast.Name) and leaves:
+            t = tt
     if isinstance(t, ast.Call) and flow.call_name(t) == "isinstance" and isinstance(t.args[0], ast.Name):
         v = t.args[0].id
 
